@@ -1,7 +1,579 @@
-//! C29 — not built yet.
-use lv_common::Ctx;
+//! C29 — Header-ex server answers every request correctly without crashing.
+//!
+//! Runs the real `HeaderExServerHandler` (through the `verif::header_ex::serve_request` hook: fresh handler,
+//! `on_request_received`, poll until the mock `ResponseSender` gets the answer) over an `InMemoryStore`
+//! filled with 0..N generated headers in 1..4 ranges with gaps, and compares the answer with a reference
+//! written from the property sentence:
+//!   * invalid request (no data, amount 0, head/hash with amount > 1, hash not 32 bytes) => exactly one INVALID;
+//!   * head => the stored head, or one NOT_FOUND on an empty store;
+//!   * height => the longest run of consecutive stored headers from the origin, capped at min(amount, 512),
+//!     or one NOT_FOUND;
+//!   * hash => that header, or one NOT_FOUND.
+//! A panic of the handler is a violation ("responds without panicking"; overflow checks are on).
+use std::collections::BTreeMap;
+use std::sync::Arc;
 
-pub fn run(_ctx: &mut Ctx) {
-    eprintln!("C29: check not built yet");
-    std::process::exit(2);
+use celestia_proto::p2p::pb::HeaderResponse;
+use celestia_types::ExtendedHeader;
+use lumina_node::store::{InMemoryStore, Store};
+use lumina_node::verif::header_ex as hx;
+use lv_common::prelude::*;
+use lv_common::{Prng, no_panic};
+use lv_gen::chain::{ChainSpec, TimeBase, build_chain, chain_strategy, simple_chain_spec};
+use lv_gen::headerex::{ReqData, STATUS_INVALID, STATUS_NOT_FOUND, STATUS_OK, make_request, panic_signature, ref_request_is_valid};
+use tendermint_proto::Protobuf;
+
+const I64MAX: u64 = i64::MAX as u64;
+const CAP: u64 = 512;
+
+#[derive(Clone, Debug, Serialize, Deserialize)]
+pub enum ChainStart {
+    One,
+    Small(u16),
+    Mid(u64),
+    /// the last header of the chain has height i64::MAX
+    TopI64,
+}
+
+#[derive(Clone, Debug, Serialize, Deserialize)]
+pub enum OriginSel {
+    Stored(u16),
+    InGap(u16),
+    AboveHead(u8),
+    BelowTail(u8),
+    One,
+    Zero,
+    /// u64::MAX - k
+    NearU64Max(u16),
+    /// i64::MAX + k
+    NearI64Max(i16),
+    Abs(u64),
+}
+
+#[derive(Clone, Debug, Serialize, Deserialize)]
+pub enum AmountSel {
+    Fixed(u64),
+    /// length of the stored run starting at the origin, plus delta
+    RunLen(i8),
+}
+
+#[derive(Clone, Debug, Serialize, Deserialize)]
+pub enum HashSel {
+    Stored(u16),
+    /// a valid header of the same chain that is not in the store (sits in a gap)
+    NotStored(u16),
+    Random(u64),
+    WrongLen { len: u8, seed: u64 },
+    /// a stored hash cut to 31 bytes / extended to 33 bytes
+    StoredCut(u16),
+    StoredExtended(u16),
+}
+
+#[derive(Clone, Debug, Serialize, Deserialize)]
+pub enum ReqSel {
+    Head,
+    Height { origin: OriginSel, amount: AmountSel },
+    Hash { which: HashSel, amount: u64 },
+    NoData { amount: u64 },
+}
+
+#[derive(Clone, Debug, Serialize, Deserialize)]
+pub struct Case {
+    pub chain: ChainSpec,
+    pub start: ChainStart,
+    pub empty: bool,
+    /// gaps punched into the chain: (position selector, length)
+    pub gaps: Vec<(u16, u8)>,
+    pub reqs: Vec<ReqSel>,
+}
+
+fn amount_values() -> impl Strategy<Value = u64> {
+    prop_oneof![
+        4 => prop_oneof![
+            Just(0u64), Just(1), Just(2), Just(511), Just(512), Just(513), Just(1_000_000), Just(u64::MAX), Just(u64::MAX - 1),
+            Just(1u64 << 32), Just(1u64 << 63), Just(I64MAX)
+        ],
+        3 => 1u64..=70,
+        1 => any::<u64>(),
+    ]
+}
+
+fn amount_strategy() -> impl Strategy<Value = AmountSel> {
+    prop_oneof![
+        5 => amount_values().prop_map(AmountSel::Fixed),
+        2 => (-2i8..=2).prop_map(AmountSel::RunLen),
+    ]
+}
+
+fn origin_strategy() -> impl Strategy<Value = OriginSel> {
+    prop_oneof![
+        6 => any::<u16>().prop_map(OriginSel::Stored),
+        3 => any::<u16>().prop_map(OriginSel::InGap),
+        2 => (0u8..4).prop_map(OriginSel::AboveHead),
+        1 => (0u8..4).prop_map(OriginSel::BelowTail),
+        1 => Just(OriginSel::One),
+        1 => Just(OriginSel::Zero),
+        4 => prop_oneof![Just(0u16), Just(1), Just(510), Just(511), Just(512), Just(513), 0u16..600].prop_map(OriginSel::NearU64Max),
+        2 => prop_oneof![Just(0i16), Just(1), Just(-1), -600i16..600].prop_map(OriginSel::NearI64Max),
+        1 => any::<u64>().prop_map(OriginSel::Abs),
+    ]
+}
+
+fn hash_strategy() -> impl Strategy<Value = HashSel> {
+    prop_oneof![
+        5 => any::<u16>().prop_map(HashSel::Stored),
+        2 => any::<u16>().prop_map(HashSel::NotStored),
+        2 => any::<u64>().prop_map(HashSel::Random),
+        2 => (prop_oneof![Just(0u8), Just(1), Just(31), Just(33), Just(64), any::<u8>()], any::<u64>()).prop_map(|(len, seed)| HashSel::WrongLen { len, seed }),
+        1 => any::<u16>().prop_map(HashSel::StoredCut),
+        1 => any::<u16>().prop_map(HashSel::StoredExtended),
+    ]
+}
+
+fn req_strategy() -> impl Strategy<Value = ReqSel> {
+    prop_oneof![
+        1 => Just(ReqSel::Head),
+        8 => (origin_strategy(), amount_strategy()).prop_map(|(origin, amount)| ReqSel::Height { origin, amount }),
+        3 => (hash_strategy(), prop_oneof![6 => Just(1u64), 1 => Just(0u64), 1 => Just(2u64), 1 => any::<u64>()]).prop_map(|(which, amount)| ReqSel::Hash { which, amount }),
+        1 => amount_values().prop_map(|amount| ReqSel::NoData { amount }),
+    ]
+}
+
+fn start_strategy() -> impl Strategy<Value = ChainStart> {
+    prop_oneof![
+        3 => Just(ChainStart::One),
+        3 => (2u16..3000).prop_map(ChainStart::Small),
+        2 => ((1u64 << 32)..(1u64 << 62)).prop_map(ChainStart::Mid),
+        2 => Just(ChainStart::TopI64),
+    ]
+}
+
+fn case_strategy(max_len: usize, nreq: usize) -> impl Strategy<Value = Case> {
+    let chain = prop_oneof![
+        2 => chain_strategy(1..=max_len.min(24), 4, false, true),
+        3 => (any::<u64>(), 1..=max_len).prop_map(|(seed, len)| simple_chain_spec(seed, 1, len, TimeBase::Fixed(1_650_000_000 + seed % 1_000_000), 12_000)),
+    ];
+    (
+        chain,
+        start_strategy(),
+        prop::bool::weighted(0.04),
+        prop::collection::vec((any::<u16>(), 1u8..6), 0..=3),
+        prop::collection::vec(req_strategy(), nreq..=nreq + 8),
+    )
+        .prop_map(|(chain, start, empty, gaps, reqs)| Case { chain, start, empty, gaps, reqs })
+}
+
+/// long consecutive runs, to exercise the 512 cap
+fn long_case_strategy(min_len: usize, max_len: usize) -> impl Strategy<Value = Case> {
+    let req = prop_oneof![
+        6 => (prop_oneof![3 => 0u16..400, 1 => any::<u16>()].prop_map(OriginSel::Stored), prop_oneof![
+            Just(511u64), Just(512), Just(513), Just(514), Just(600), Just(1_000_000), Just(u64::MAX), 500u64..700
+        ].prop_map(AmountSel::Fixed)).prop_map(|(origin, amount)| ReqSel::Height { origin, amount }),
+        1 => req_strategy(),
+    ];
+    (
+        (any::<u64>(), min_len..=max_len).prop_map(|(seed, len)| simple_chain_spec(seed, 1, len, TimeBase::Fixed(1_650_000_000 + seed % 1_000_000), 12_000)),
+        start_strategy(),
+        prop::collection::vec((any::<u16>(), 1u8..3), 0..=1),
+        prop::collection::vec(req, 12..=20),
+    )
+        .prop_map(|(chain, start, gaps, reqs)| Case { chain, start, empty: false, gaps, reqs })
+}
+
+struct World {
+    /// the whole generated chain (stored or not)
+    all: Vec<ExtendedHeader>,
+    stored: BTreeMap<u64, ExtendedHeader>,
+    gap_heights: Vec<u64>,
+    store: Arc<InMemoryStore>,
+}
+
+fn build_world(case: &Case) -> Result<World, Failure> {
+    let mut spec = case.chain.clone();
+    let l = spec.blocks.len() as u64;
+    spec.start_height = match case.start {
+        ChainStart::One => 1,
+        ChainStart::Small(s) => s as u64,
+        ChainStart::Mid(m) => m,
+        ChainStart::TopI64 => I64MAX - (l - 1),
+    };
+    let chain = build_chain(&spec);
+    let all = chain.headers;
+    let n = all.len();
+    let mut keep = vec![!case.empty; n];
+    for (pos, len) in &case.gaps {
+        let p = pick(*pos, n);
+        for k in keep.iter_mut().skip(p).take(*len as usize) {
+            *k = false;
+        }
+    }
+    let mut stored = BTreeMap::new();
+    let mut gap_heights = Vec::new();
+    let mut segments: Vec<Vec<ExtendedHeader>> = Vec::new();
+    let mut cur: Vec<ExtendedHeader> = Vec::new();
+    for (i, h) in all.iter().enumerate() {
+        if keep[i] {
+            stored.insert(h.height(), h.clone());
+            cur.push(h.clone());
+        } else {
+            gap_heights.push(h.height());
+            if !cur.is_empty() {
+                segments.push(std::mem::take(&mut cur));
+            }
+        }
+    }
+    if !cur.is_empty() {
+        segments.push(cur);
+    }
+    let store = InMemoryStore::new();
+    let rt = tokio::runtime::Builder::new_current_thread().build().unwrap();
+    for seg in segments {
+        let (lo, hi) = (seg[0].height(), seg[seg.len() - 1].height());
+        rt.block_on(store.insert(seg))
+            .map_err(|e| Failure::new("gen", format!("cannot fill the store with the generated segment {lo}..={hi}: {e}")))?;
+    }
+    Ok(World {
+        all,
+        stored,
+        gap_heights,
+        store: Arc::new(store),
+    })
+}
+
+#[derive(Debug)]
+enum Expected {
+    Invalid,
+    NotFound,
+    Headers(Vec<ExtendedHeader>),
+}
+
+fn reference(w: &World, data: &ReqData, amount: u64) -> Expected {
+    if !ref_request_is_valid(data, amount) {
+        return Expected::Invalid;
+    }
+    match data {
+        ReqData::None => Expected::Invalid,
+        ReqData::Origin(0) => match w.stored.iter().next_back() {
+            Some((_, h)) => Expected::Headers(vec![h.clone()]),
+            None => Expected::NotFound,
+        },
+        ReqData::Origin(o) => {
+            let cap = amount.min(CAP);
+            let mut out = Vec::new();
+            let mut k = 0u64;
+            while k < cap {
+                let Some(h) = o.checked_add(k) else { break };
+                let Some(hd) = w.stored.get(&h) else { break };
+                out.push(hd.clone());
+                k += 1;
+            }
+            if out.is_empty() { Expected::NotFound } else { Expected::Headers(out) }
+        }
+        ReqData::Hash(hash) => match w.stored.values().find(|h| h.hash().as_bytes() == &hash[..]) {
+            Some(h) => Expected::Headers(vec![h.clone()]),
+            None => Expected::NotFound,
+        },
+    }
+}
+
+fn run_len_from(w: &World, o: u64) -> u64 {
+    let mut k = 0u64;
+    while let Some(h) = o.checked_add(k) {
+        if !w.stored.contains_key(&h) {
+            break;
+        }
+        k += 1;
+    }
+    k
+}
+
+fn resolve(w: &World, r: &ReqSel) -> (ReqData, u64) {
+    let stored: Vec<u64> = w.stored.keys().copied().collect();
+    let first_all = w.all[0].height();
+    let last_all = w.all[w.all.len() - 1].height();
+    match r {
+        ReqSel::Head => (ReqData::Origin(0), 1),
+        ReqSel::NoData { amount } => (ReqData::None, *amount),
+        ReqSel::Height { origin, amount } => {
+            let o = match origin {
+                OriginSel::Stored(s) if !stored.is_empty() => stored[pick(*s, stored.len())],
+                OriginSel::Stored(s) => first_all + pick(*s, w.all.len()) as u64,
+                OriginSel::InGap(s) if !w.gap_heights.is_empty() => w.gap_heights[pick(*s, w.gap_heights.len())],
+                OriginSel::InGap(s) => last_all.saturating_add(1 + (*s as u64 % 3)),
+                OriginSel::AboveHead(k) => stored.last().copied().unwrap_or(last_all).saturating_add(1 + *k as u64),
+                OriginSel::BelowTail(k) => stored.first().copied().unwrap_or(first_all).saturating_sub(1 + *k as u64),
+                OriginSel::One => 1,
+                OriginSel::Zero => 0,
+                OriginSel::NearU64Max(k) => u64::MAX - *k as u64,
+                OriginSel::NearI64Max(k) => I64MAX.wrapping_add_signed(*k as i64),
+                OriginSel::Abs(a) => *a,
+            };
+            let a = match amount {
+                AmountSel::Fixed(a) => *a,
+                AmountSel::RunLen(d) => run_len_from(w, o).saturating_add_signed(*d as i64),
+            };
+            (ReqData::Origin(o), a)
+        }
+        ReqSel::Hash { which, amount } => {
+            let stored_hash = |s: u16| -> Vec<u8> {
+                if stored.is_empty() {
+                    w.all[pick(s, w.all.len())].hash().as_bytes().to_vec()
+                } else {
+                    w.stored[&stored[pick(s, stored.len())]].hash().as_bytes().to_vec()
+                }
+            };
+            let h = match which {
+                HashSel::Stored(s) => stored_hash(*s),
+                HashSel::NotStored(s) => {
+                    if w.gap_heights.is_empty() {
+                        Prng::new(*s as u64).bytes(32)
+                    } else {
+                        let hh = w.gap_heights[pick(*s, w.gap_heights.len())];
+                        w.all.iter().find(|x| x.height() == hh).unwrap().hash().as_bytes().to_vec()
+                    }
+                }
+                HashSel::Random(seed) => Prng::new(*seed).bytes(32),
+                HashSel::WrongLen { len, seed } => {
+                    let l = if *len == 32 { 30 } else { *len };
+                    Prng::new(*seed).bytes(l as usize)
+                }
+                HashSel::StoredCut(s) => {
+                    let mut v = stored_hash(*s);
+                    v.truncate(31);
+                    v
+                }
+                HashSel::StoredExtended(s) => {
+                    let mut v = stored_hash(*s);
+                    v.push(0);
+                    v
+                }
+            };
+            (ReqData::Hash(h), *amount)
+        }
+    }
+}
+
+fn describe_store(w: &World) -> String {
+    let mut ranges: Vec<(u64, u64)> = Vec::new();
+    for h in w.stored.keys() {
+        match ranges.last_mut() {
+            Some((_, e)) if *e + 1 == *h => *e = *h,
+            _ => ranges.push((*h, *h)),
+        }
+    }
+    format!("{ranges:?}")
+}
+
+fn summarize(rs: &[HeaderResponse]) -> String {
+    let parts: Vec<String> = rs
+        .iter()
+        .take(6)
+        .map(|r| match (r.status_code, ExtendedHeader::decode(&r.body[..])) {
+            (STATUS_OK, Ok(h)) => format!("OK@{}", h.height()),
+            (STATUS_OK, Err(_)) => "OK(undecodable)".to_string(),
+            (STATUS_NOT_FOUND, _) => "NOT_FOUND".to_string(),
+            (STATUS_INVALID, _) => "INVALID".to_string(),
+            (c, _) => format!("status {c}"),
+        })
+        .collect();
+    format!("{} responses [{}{}]", rs.len(), parts.join(", "), if rs.len() > 6 { ", …" } else { "" })
+}
+
+fn check_request(w: &World, store_digest: u64, r: &ReqSel, obs: &mut Obs) -> Result<(), Failure> {
+    let (data, amount) = resolve(w, r);
+    let request = make_request(&data, amount);
+    let expected = reference(w, &data, amount);
+
+    // ---- classification
+    let near_max = matches!(data, ReqData::Origin(o) if o > u64::MAX - 600);
+    let run = match data {
+        ReqData::Origin(o) if o > 0 => run_len_from(w, o),
+        _ => 0,
+    };
+    let class: &'static str = match (&expected, &data) {
+        (Expected::Invalid, ReqData::None) => "exp-invalid/no-data",
+        (Expected::Invalid, _) if amount == 0 => "exp-invalid/amount-0",
+        (Expected::Invalid, ReqData::Origin(0)) => "exp-invalid/head-amount-gt-1",
+        (Expected::Invalid, ReqData::Hash(h)) if h.len() != 32 => "exp-invalid/hash-length",
+        (Expected::Invalid, ReqData::Hash(_)) => "exp-invalid/hash-amount-gt-1",
+        (Expected::Invalid, _) => "exp-invalid/other",
+        (Expected::NotFound, ReqData::Origin(0)) => "exp-head-not-found",
+        (Expected::Headers(_), ReqData::Origin(0)) => "exp-head-ok",
+        (Expected::NotFound, ReqData::Origin(_)) => "exp-height-not-found",
+        (Expected::Headers(hs), ReqData::Origin(_)) => {
+            let k = hs.len() as u64;
+            if k == CAP && (amount > CAP || run > CAP) {
+                "exp-height-capped-512"
+            } else if k == amount {
+                "exp-height-full-amount"
+            } else if w.stored.keys().next_back().copied() == Some(hs[hs.len() - 1].height()) {
+                "exp-height-cut-by-head"
+            } else {
+                "exp-height-cut-by-gap"
+            }
+        }
+        (Expected::NotFound, ReqData::Hash(_)) => "exp-hash-not-found",
+        (Expected::Headers(_), ReqData::Hash(_)) => "exp-hash-ok",
+        (_, ReqData::None) => "exp-invalid/no-data",
+    };
+    obs.label(class);
+    if near_max {
+        obs.label("origin-near-u64-max");
+    }
+    if matches!(data, ReqData::Origin(o) if o >= I64MAX - 600 && o <= I64MAX + 600) {
+        obs.label("origin-near-i64-max");
+    }
+    match amount {
+        0 => obs.label("amount-0"),
+        512 => obs.label("amount-512"),
+        513 => obs.label("amount-513"),
+        u64::MAX => obs.label("amount-u64-max"),
+        a if a > CAP => obs.label("amount-above-cap"),
+        _ => {}
+    }
+    let trivial = class == "exp-height-full-amount" && !near_max && amount < CAP;
+    obs.eval((!trivial).then(|| store_digest ^ digest_of(&request)));
+
+    // ---- run the real handler
+    let store = w.store.clone();
+    let req2 = request.clone();
+    let result = no_panic(move || {
+        let rt = tokio::runtime::Builder::new_current_thread().build().unwrap();
+        rt.block_on(hx::serve_request(store, req2))
+    });
+    let ctx = || format!("request {request:?} over a store holding {}", describe_store(w));
+    let got = match result {
+        Err(rec) => {
+            obs.label("outcome-panic");
+            return obs.fail(&panic_signature("C29", &rec), format!("the server handler panicked ({rec}); {}; expected {}", ctx(), exp_str(&expected)));
+        }
+        Ok(None) => {
+            return obs.fail("C29:no-response", format!("the handler dropped the response channel without answering; {}", ctx()));
+        }
+        Ok(Some(v)) => v,
+    };
+    match &expected {
+        Expected::Invalid => {
+            if !(got.len() == 1 && got[0].status_code == STATUS_INVALID) {
+                obs.fail("C29:invalid-request-answer", format!("expected a single INVALID response, got {}; {}", summarize(&got), ctx()))?;
+            }
+        }
+        Expected::NotFound => {
+            if !(got.len() == 1 && got[0].status_code == STATUS_NOT_FOUND) {
+                let sig = match data {
+                    ReqData::Origin(0) => "C29:head-answer",
+                    ReqData::Origin(_) => "C29:height-answer",
+                    _ => "C29:hash-answer",
+                };
+                obs.fail(sig, format!("expected a single NOT_FOUND response, got {}; {}", summarize(&got), ctx()))?;
+            }
+        }
+        Expected::Headers(hs) => {
+            let sig = match data {
+                ReqData::Origin(0) => "C29:head-answer",
+                ReqData::Origin(_) => "C29:height-answer",
+                _ => "C29:hash-answer",
+            };
+            let mut ok = got.len() == hs.len();
+            if ok {
+                for (g, h) in got.iter().zip(hs) {
+                    let same = g.status_code == STATUS_OK && matches!(ExtendedHeader::decode(&g.body[..]), Ok(d) if d == *h);
+                    if !same {
+                        ok = false;
+                        break;
+                    }
+                }
+            }
+            if !ok {
+                obs.fail(
+                    sig,
+                    format!(
+                        "expected {} OK responses with heights {:?}…{:?}, got {}; {}",
+                        hs.len(),
+                        hs.first().map(|h| h.height()),
+                        hs.last().map(|h| h.height()),
+                        summarize(&got),
+                        ctx()
+                    ),
+                )?;
+            }
+        }
+    }
+    Ok(())
+}
+
+fn exp_str(e: &Expected) -> String {
+    match e {
+        Expected::Invalid => "one INVALID".into(),
+        Expected::NotFound => "one NOT_FOUND".into(),
+        Expected::Headers(h) => format!("{} headers from height {}", h.len(), h[0].height()),
+    }
+}
+
+fn run_case(case: &Case, obs: &mut Obs) -> Result<(), Failure> {
+    let w = build_world(case)?;
+    let store_digest = digest_bytes(format!("{:?}{:?}", describe_store(&w), w.all[0].hash()).as_bytes());
+    obs.label(match w.stored.len() {
+        0 => "store-empty",
+        _ => {
+            let mut ranges = 0;
+            let mut prev = None;
+            for h in w.stored.keys() {
+                if prev.map(|p: u64| p + 1 != *h).unwrap_or(true) {
+                    ranges += 1;
+                }
+                prev = Some(*h);
+            }
+            match ranges {
+                1 => "store-1-range",
+                2 => "store-2-ranges",
+                3 => "store-3-ranges",
+                _ => "store-4-ranges",
+            }
+        }
+    });
+    for r in &case.reqs {
+        check_request(&w, store_digest, r, obs)?;
+    }
+    Ok(())
+}
+
+pub fn run(ctx: &mut Ctx) {
+    ctx.assume("the store is filled through Store::insert with honest generated chain segments (ascending, so every segment is a legal new head range); the reference reads the same generated headers from a BTreeMap");
+    ctx.assume("response bodies are compared after ExtendedHeader::decode (celestia-types decoder, trusted) with the stored header");
+    ctx.assume("the handler is driven exactly like its #[cfg(test)] tests do: fresh handler, on_request_received, poll until the mock ResponseSender receives the answer; libp2p transport is out of scope");
+    ctx.essential(&[
+        "exp-invalid/no-data",
+        "exp-invalid/amount-0",
+        "exp-invalid/head-amount-gt-1",
+        "exp-invalid/hash-length",
+        "exp-invalid/hash-amount-gt-1",
+        "exp-head-ok",
+        "exp-head-not-found",
+        "exp-height-not-found",
+        "exp-height-full-amount",
+        "exp-height-cut-by-head",
+        "exp-height-cut-by-gap",
+        "exp-height-capped-512",
+        "exp-hash-ok",
+        "exp-hash-not-found",
+        "origin-near-u64-max",
+        "origin-near-i64-max",
+        "amount-0",
+        "amount-512",
+        "amount-513",
+        "amount-u64-max",
+        "store-empty",
+        "store-2-ranges",
+        "store-4-ranges",
+    ]);
+    ctx.set_shrink_iters(300);
+    let (cases, max_len, nreq, long_cases, long_min, long_max) = match ctx.tier {
+        Tier::Quick => (480u32, 60usize, 16usize, 16u32, 514usize, 560usize),
+        Tier::Thorough => (10_000, 90, 24, 160, 514, 700),
+    };
+    let rule = "per generated store (0..N headers of an honest chain starting at 1 / small / mid / ending at i64::MAX, up to 3 gaps punched in => 1..4 ranges, sometimes empty) 16..32 requests: head; origin in {stored, in a gap, above head, below tail, 1, 0, u64::MAX-k (k incl. 0,1,510..513), i64::MAX+-k, any} x amount in {0,1,2,511,512,513,10^6,u64::MAX,2^32,2^63, 1..70, run length +-2, any}; hash stored / valid-but-not-stored / random / wrong length / cut / extended, with amount 0,1,2,any; no data. One evaluation per request, compared with the reference answer. Non-trivial = everything except a plain hit fully served inside one stored run (distinct by store ranges + request)";
+    ctx.proptest("requests", rule, cases, move || case_strategy(max_len, nreq), run_case);
+    let rule_long = "stores with one run of 514..N consecutive headers (optionally one gap): height requests with amounts 500..700, 511, 512, 513, 514, 10^6, u64::MAX from origins inside the run, so that the min(amount, 512) cap decides the answer; same oracle";
+    ctx.proptest("long-runs", rule_long, long_cases, move || long_case_strategy(long_min, long_max), run_case);
 }
